@@ -37,6 +37,19 @@ pub fn octet(rec: &mut Recorder, _rng: &mut Rng, _thorough: bool) {
                     if (Octet::new(a) + Octet::new(b)).byte() != a ^ b {
                         rec.impl_violation(format!("Octet {a} + {b} is not xor"));
                     }
+                    // every spelling of addition / subtraction / multiplication / division the type offers
+                    let (oa, ob) = (Octet::new(a), Octet::new(b));
+                    let mut v1 = Octet::new(a); v1 += Octet::new(b);
+                    let mut v2 = Octet::new(a); v2 += &ob;
+                    if (&oa + &ob).byte() != a ^ b || v1.byte() != a ^ b || v2.byte() != a ^ b || (Octet::new(a) - Octet::new(b)).byte() != a ^ b {
+                        rec.impl_violation(format!("Octet {a} +/- {b} (by reference / assigning / subtraction) is not xor"));
+                    }
+                    if (&oa * &ob).byte() != pmul(a, b) {
+                        rec.impl_violation(format!("&Octet {a} * &Octet {b} is not the polynomial product"));
+                    }
+                    if b != 0 && (&oa / &ob).byte() != pmul(a, pinv(b)) {
+                        rec.impl_violation(format!("&Octet {a} / &Octet {b} is not the field quotient"));
+                    }
                 }
             }
             Err(_) => rec.impl_violation(format!("Octet multiplication panics in row {a}")),
@@ -369,6 +382,63 @@ pub fn slab(rec: &mut Recorder, rng: &mut Rng, thorough: bool, outdir: &str) {
         rec.put(&format!("slab {ss} {} {ops}", hex(&syms.concat())), &ans);
         rec.put(&format!("slabb {ss} {} {ops}", hex(&syms.concat())), &ans);
         rec.count(if bad { "slab_malformed_mapping" } else { "slab_permutation_control" });
+    }
+    // the slab's bulk helpers (into_symbols with and without a mapping, copy_block_from, gather) and the
+    // Symbol wrappers of the kernels: same bytes as the plain element-wise definitions
+    for it in 0..(if thorough { 600 } else { 120 }) {
+        let ss = if it % 3 == 0 { rng.range(1, 9) as usize } else { rng.range(1, 140) as usize };
+        let count = rng.range(1, 7) as usize;
+        let syms: Vec<Vec<u8>> = (0..count).map(|_| rng.bytes(ss)).collect();
+        let mut order: Vec<usize> = (0..count).collect();
+        rng.shuffle(&mut order);
+        let idx: Vec<usize> = (0..rng.range(0, 9) as usize).map(|_| rng.below(count as u64) as usize).collect();
+        let start = rng.below(count as u64) as usize;
+        let nblk = rng.range(0, (count - start) as u64) as usize;
+        let blk = rng.bytes(ss * nblk);
+        let c = rng.below(256) as u8;
+        let (s2, o2, i2, b2) = (syms.clone(), order.clone(), idx.clone(), blk.clone());
+        let r = guarded(move || {
+            let mk = || SymbolSlab::from_symbols(s2.iter().map(|s| raptorq::Symbol::new(s.clone())).collect(), ss);
+            let plain: Vec<Vec<u8>> = mk().into_symbols().into_iter().map(|s| s.into_bytes()).collect();
+            let mut m = mk(); m.set_reorder(o2.clone());
+            let mapped: Vec<Vec<u8>> = m.into_symbols().into_iter().map(|s| s.into_bytes()).collect();
+            let g = mk().gather(&i2);
+            let gathered: Vec<Vec<u8>> = (0..g.len()).map(|i| g.get(i).to_vec()).collect();
+            let mut cb = mk(); cb.copy_block_from(start, &b2);
+            let copied: Vec<Vec<u8>> = (0..cb.len()).map(|i| cb.get(i).to_vec()).collect();
+            // Symbol wrappers
+            let mut x = raptorq::Symbol::new(s2[0].clone());
+            let y = raptorq::Symbol::new(s2[s2.len() - 1].clone());
+            x += &y;
+            let added = x.as_bytes().to_vec();
+            let mut x = raptorq::Symbol::new(s2[0].clone());
+            x.mulassign_scalar(&Octet::new(c));
+            let muld = x.as_bytes().to_vec();
+            let mut x = raptorq::Symbol::new(s2[0].clone());
+            if c >= 2 { x.fused_addassign_mul_scalar(&y, &Octet::new(c)); }
+            let fmad = x.as_bytes().to_vec();
+            let z = raptorq::Symbol::zero(ss);
+            (plain, mapped, gathered, copied, added, muld, fmad, z.len(), z.is_empty(), z.as_bytes().iter().all(|b| *b == 0))
+        });
+        match r {
+            Ok((plain, mapped, gathered, copied, added, muld, fmad, zl, ze, zz)) => {
+                let last = &syms[count - 1];
+                let mut bad = vec![];
+                if plain != syms { bad.push("into_symbols"); }
+                if mapped != order.iter().map(|p| syms[*p].clone()).collect::<Vec<_>>() { bad.push("into_symbols through a mapping"); }
+                if gathered != idx.iter().map(|i| syms[*i].clone()).collect::<Vec<_>>() { bad.push("gather"); }
+                let mut want = syms.clone();
+                for (q, ch) in blk.chunks(ss).enumerate() { want[start + q] = ch.to_vec(); }
+                if copied != want { bad.push("copy_block_from"); }
+                if added != syms[0].iter().zip(last).map(|(a, b)| a ^ b).collect::<Vec<u8>>() { bad.push("Symbol += &Symbol"); }
+                if muld != syms[0].iter().map(|a| pmul(c, *a)).collect::<Vec<u8>>() { bad.push("Symbol::mulassign_scalar"); }
+                if c >= 2 && fmad != syms[0].iter().zip(last).map(|(a, b)| a ^ pmul(c, *b)).collect::<Vec<u8>>() { bad.push("Symbol::fused_addassign_mul_scalar"); }
+                if zl != ss || ze != (ss == 0) || !zz { bad.push("Symbol::zero"); }
+                for b in bad { rec.impl_violation(format!("{b} differs from its element-wise definition: {count} symbols of {ss} bytes, mapping {:?}, indices {:?}, scalar {c}", order, idx)); }
+            }
+            Err(_) => rec.impl_violation(format!("a slab / Symbol helper panics on valid arguments: {count} symbols of {ss} bytes, mapping {:?}, indices {:?}, block of {} bytes at {start}, scalar {c}", order, idx, blk.len())),
+        }
+        rec.count("slab_helpers");
     }
     // the paired borrow refuses dest == src and out-of-range indices
     let mut slab = SymbolSlab::with_zeros(3, 8);
